@@ -64,6 +64,14 @@ REGISTRY = {
         },
     },
     "C17": {
+        # thorough also runs a share of the workload under the pure-Python
+        # protobuf backend (separate worker processes)
+        "configs": [
+            {"name": "upb", "env": {
+                "PROTOCOL_BUFFERS_PYTHON_IMPLEMENTATION": "upb"}},
+            {"name": "python", "tiers": ("thorough",), "env": {
+                "PROTOCOL_BUFFERS_PYTHON_IMPLEMENTATION": "python"}},
+        ],
         "level": "fault_enumeration",
         "tiers": {
             "quick": {"workers": 16, "n_seed": 48, "bitflip_complete_max": 400,
@@ -74,6 +82,14 @@ REGISTRY = {
         },
     },
     "C09": {
+        # thorough also runs a share of the workload under the pure-Python
+        # protobuf backend (separate worker processes)
+        "configs": [
+            {"name": "upb", "env": {
+                "PROTOCOL_BUFFERS_PYTHON_IMPLEMENTATION": "upb"}},
+            {"name": "python", "tiers": ("thorough",), "env": {
+                "PROTOCOL_BUFFERS_PYTHON_IMPLEMENTATION": "python"}},
+        ],
         "level": "exploration",
         "tiers": {
             "quick": {"workers": 8, "n_refs": 1000},
@@ -95,6 +111,14 @@ REGISTRY = {
         },
     },
     "C01": {
+        # thorough also runs a share of the workload under the pure-Python
+        # protobuf backend (separate worker processes)
+        "configs": [
+            {"name": "upb", "env": {
+                "PROTOCOL_BUFFERS_PYTHON_IMPLEMENTATION": "upb"}},
+            {"name": "python", "tiers": ("thorough",), "env": {
+                "PROTOCOL_BUFFERS_PYTHON_IMPLEMENTATION": "python"}},
+        ],
         "level": "exploration",
         "tiers": {
             "quick": {"workers": 8, "n_spec": 1200},
